@@ -10,9 +10,10 @@ namespace SafeC
 open Gen
 
 /-- one of the two copy loops (`dest < src`: the bumper is checked against `dest`; else against
-`src`).  `slen = none` for the unbounded variants. Ends with the ESNOSPC exit. -/
-def copyLoop (cfg : Cfg) (onDest : Bool) (bumper origDest origDmax : Nat) :
-    Nat → Nat → Nat → Option Nat → Prog Nat
+`src`).  `bounded` = the `slen == 0` truncation test is present (strncpy/strncat variants).
+Ends with the ESNOSPC exit. -/
+def copyLoop (cfg : Cfg) (onDest bounded : Bool) (bumper origDest origDmax : Nat) :
+    Nat → Nat → Nat → Nat → Prog Nat
   | 0, _, _, _ => do
     handleError cfg origDest origDmax ESNOSPC
     pure ESNOSPC
@@ -20,7 +21,7 @@ def copyLoop (cfg : Cfg) (onDest : Bool) (bumper origDest origDmax : Nat) :
     if (if onDest then dest else src) = bumper then do
       handleError cfg origDest origDmax ESOVRLP
       pure ESOVRLP
-    else if slen = some 0 then do
+    else if bounded = true ∧ slen = 0 then do
       if cfg.slack then nullSlack dest (dmax+1) else store dest 0
       pure EOK
     else do
@@ -29,7 +30,7 @@ def copyLoop (cfg : Cfg) (onDest : Bool) (bumper origDest origDmax : Nat) :
       if c = 0 then do
         if cfg.slack then nullSlack dest (dmax+1) else pure ()
         pure EOK
-      else copyLoop cfg onDest bumper origDest origDmax dmax (dest+1) (src+1) (slen.map (· - 1))
+      else copyLoop cfg onDest bounded bumper origDest origDmax dmax (dest+1) (src+1) (slen - 1)
 
 /-- `while (*dest != '\0')` of the concatenations: find the end of dest.
 `chkBumper` is true in the `dest < src` branch only. Returns `inl code` on an error exit,
@@ -57,8 +58,8 @@ def strcpyG (max : Nat) (cfg : Cfg) (dest dmax src : Nat) (destbos : Bos) : Prog
   else chkDmaxClear cfg dest dmax destbos max <|
     if src = 0 then do handleError cfg dest dmax ESNULLP; pure ESNULLP
     else if dest = src then pure EOK
-    else if dest < src then copyLoop cfg true src dest dmax dmax dest src none
-    else copyLoop cfg false dest dest dmax dmax dest src none
+    else if dest < src then copyLoop cfg true false src dest dmax dmax dest src 0
+    else copyLoop cfg false false dest dest dmax dmax dest src 0
 
 def strcpy_s := strcpyG RSIZE_MAX_STR
 
@@ -72,11 +73,11 @@ def strncpyG (max : Nat) (cfg : Cfg) (dest dmax src slen : Nat) (destbos srcbos 
       match srcbos with
       | some sb =>
         if slen > sb then handleStrBosOverflow cfg dest (destbos.getD (2^64 - 1))
-        else if dest < src then copyLoop cfg true src dest dmax dmax dest src (some slen)
-        else copyLoop cfg false dest dest dmax dmax dest src (some slen)
+        else if dest < src then copyLoop cfg true true src dest dmax dmax dest src slen
+        else copyLoop cfg false true dest dest dmax dmax dest src slen
       | none =>
-        if dest < src then copyLoop cfg true src dest dmax dmax dest src (some slen)
-        else copyLoop cfg false dest dest dmax dmax dest src (some slen)
+        if dest < src then copyLoop cfg true true src dest dmax dmax dest src slen
+        else copyLoop cfg false true dest dest dmax dmax dest src slen
 
 def strncpy_s := strncpyG RSIZE_MAX_STR
 
@@ -88,11 +89,11 @@ def strcatG (max : Nat) (cfg : Cfg) (dest dmax src : Nat) (destbos : Bos) : Prog
     else if dest < src then do
       match ← findEnd cfg true src dest dmax dmax dest with
       | .inl code => pure code
-      | .inr (d, m) => copyLoop cfg true src dest dmax m d src none
+      | .inr (d, m) => copyLoop cfg true false src dest dmax m d src 0
     else do
       match ← findEnd cfg false dest dest dmax dmax dest with
       | .inl code => pure code
-      | .inr (d, m) => copyLoop cfg false dest dest dmax m d src none
+      | .inr (d, m) => copyLoop cfg false false dest dest dmax m d src 0
 
 def strcat_s := strcatG RSIZE_MAX_STR
 
@@ -113,15 +114,163 @@ def strncatG (max : Nat) (cfg : Cfg) (dest dmax src slen : Nat) (destbos srcbos 
           if dest < src then do
             match ← findEnd cfg true src dest dmax dmax dest with
             | .inl code => pure code
-            | .inr (d, m) => copyLoop cfg true src dest dmax m d src (some slen)
+            | .inr (d, m) => copyLoop cfg true true src dest dmax m d src slen
           else do
             match ← findEnd cfg false dest dest dmax dmax dest with
             | .inl code => pure code
-            | .inr (d, m) => copyLoop cfg false dest dest dmax m d src (some slen)
+            | .inr (d, m) => copyLoop cfg false true dest dest dmax m d src slen
         match srcbos with
         | some sb => if slen > sb then handleStrBosOverflow cfg dest (destbos.getD (2^64 - 1)) else body
         | none => body
 
 def strncat_s := strncatG RSIZE_MAX_STR
+
+
+/-! ## wide twins: same loops, the entry checks of `src/wchar/*.c` -/
+
+def wcscpy_s (cfg : Cfg) (dest dmax src : Nat) (destbos : Bos) : Prog Nat :=
+  if dest = 0 then failS ESNULLP
+  else if dmax = 0 then failS ESZEROL
+  else chkDmaxClearW cfg dest dmax destbos <|
+    if src = 0 then do handleError cfg dest dmax ESNULLP; pure ESNULLP
+    else if dest = src then pure EOK
+    else if dest < src then copyLoop cfg true false src dest dmax dmax dest src 0
+    else copyLoop cfg false false dest dest dmax dmax dest src 0
+
+def wcsncpy_s (cfg : Cfg) (dest dmax src slen : Nat) (destbos srcbos : Bos) : Prog Nat :=
+  if slen = 0 ∧ dest ≠ 0 ∧ dmax ≠ 0 then do store dest 0; pure EOK
+  else if dest = 0 then failS ESNULLP
+  else if dmax = 0 then failS ESZEROL
+  else chkDmaxClearW cfg dest dmax destbos <|
+    if src = 0 then do handleError cfg dest dmax ESNULLP; pure ESNULLP
+    else if slen > RSIZE_MAX_WSTR then do
+      let l ← wcsnlen_s dest dmax
+      handleError cfg dest l ESLEMAX
+      pure ESLEMAX
+    else
+      let body : Prog Nat :=
+        if dest < src then copyLoop cfg true true src dest dmax dmax dest src slen
+        else copyLoop cfg false true dest dest dmax dmax dest src slen
+      match srcbos with
+      | some sb =>
+        if slen * SIZEOF_WCHAR_T > sb then do
+          let l ← wcsnlen_s dest dmax
+          handleError cfg dest l EOVERFLOW
+          pure EOVERFLOW
+        else body
+      | none => body
+
+def wcscat_s (cfg : Cfg) (dest dmax src : Nat) (destbos : Bos) : Prog Nat :=
+  if dest = 0 then failS ESNULLP
+  else if dmax = 0 then failS ESZEROL
+  else chkDmaxW dmax destbos <|
+    if src = 0 then do handleError cfg dest dmax ESNULLP; pure ESNULLP
+    else if dest < src then do
+      match ← findEnd cfg true src dest dmax dmax dest with
+      | .inl code => pure code
+      | .inr (d, m) => copyLoop cfg true false src dest dmax m d src 0
+    else do
+      match ← findEnd cfg false dest dest dmax dmax dest with
+      | .inl code => pure code
+      | .inr (d, m) => copyLoop cfg false false dest dest dmax m d src 0
+
+def wcsncat_s (cfg : Cfg) (dest dmax src slen : Nat) (destbos srcbos : Bos) : Prog Nat :=
+  if slen = 0 ∧ dest = 0 ∧ dmax = 0 then pure EOK
+  else if dest = 0 then failS ESNULLP
+  else if dmax = 0 then failS ESZEROL
+  else chkDmaxW dmax destbos <|
+    if src = 0 then do handleError cfg dest dmax ESNULLP; pure ESNULLP
+    else if slen > RSIZE_MAX_WSTR then do
+      let l ← wcsnlen_s dest dmax
+      handleError cfg dest l ESLEMAX
+      pure ESLEMAX
+    else
+      let rest : Prog Nat :=
+        if slen = 0 then do
+          let l ← wcsnlen_s dest dmax
+          let error := if l < dmax then EOK else ESZEROL
+          handleError cfg dest dmax error
+          pure error
+        else if dest < src then do
+          match ← findEnd cfg true src dest dmax dmax dest with
+          | .inl code => pure code
+          | .inr (d, m) => copyLoop cfg true true src dest dmax m d src slen
+        else do
+          match ← findEnd cfg false dest dest dmax dmax dest with
+          | .inl code => pure code
+          | .inr (d, m) => copyLoop cfg false true dest dest dmax m d src slen
+      match srcbos with
+      | some sb =>
+        if slen * SIZEOF_WCHAR_T > sb then do
+          let l ← wcsnlen_s dest dmax
+          handleError cfg dest l EOVERFLOW
+          pure EOVERFLOW
+        else rest
+      | none => rest
+
+/-! ## `stpcpy_s` / `stpncpy_s` (as repaired by the `fix:` commits) — return (pointer, *errp) -/
+
+def stpEok (cfg : Cfg) (isN : Bool) (dest dmax : Nat) : Prog (Nat × Nat) := do
+  if cfg.slack then nullSlack dest dmax
+  else if isN then store dest 0 else pure ()
+  pure (dest, EOK)
+
+def stpLoop (cfg : Cfg) (isN onDest : Bool) (bumper origDest origDmax : Nat) (srcbos : Bos) :
+    Nat → Nat → Nat → Nat → Prog (Nat × Nat)
+  | 0, _, _, _ => do
+    handleError cfg origDest origDmax ESNOSPC
+    pure (0, ESNOSPC)
+  | dmax+1, dest, src, slen =>
+    if (if onDest then dest else src) = bumper then do
+      handleError cfg origDest origDmax ESOVRLP
+      pure (0, ESOVRLP)
+    else if isN ∧ slen = 0 then stpEok cfg isN dest (dmax+1)
+    else do
+      let c ← load src
+      store dest c
+      if c = 0 then stpEok cfg isN dest (dmax+1)
+      else
+        let slen' := if isN then slen - 1 else slen + 1
+        if (match srcbos with | none => false | some sb => decide (slen' ≥ sb)) then do
+          handlerS ESUNTERM
+          pure (0, ESUNTERM)
+        else stpLoop cfg isN onDest bumper origDest origDmax srcbos dmax (dest+1) (src+1) slen'
+
+def stpSameWalk (cfg : Cfg) (isN : Bool) (origDest origDmax : Nat) : Nat → Nat → Prog (Nat × Nat)
+  | 0, _ => do
+    handleError cfg origDest origDmax ESNOSPC
+    pure (0, ESNOSPC)
+  | dmax+1, dest => do
+    let c ← load dest
+    if c = 0 then stpEok cfg isN dest (dmax+1) else stpSameWalk cfg isN origDest origDmax dmax (dest+1)
+
+def stpBody (cfg : Cfg) (isN : Bool) (dest dmax src slen : Nat) (srcbos : Bos) : Prog (Nat × Nat) :=
+  if dest = src then stpSameWalk cfg isN dest dmax dmax dest
+  else if dest < src then stpLoop cfg isN true src dest dmax srcbos dmax dest src slen
+  else stpLoop cfg isN false dest dest dmax srcbos dmax dest src slen
+
+def stpcpy_s (cfg : Cfg) (dest dmax src : Nat) (destbos srcbos : Bos) : Prog (Nat × Nat) :=
+  if dest = 0 then do handlerS ESNULLP; pure (0, ESNULLP)
+  else if dmax = 0 then do handlerS ESZEROL; pure (0, ESZEROL)
+  else chkDmaxClearG (fun c => (0, c)) cfg dest dmax destbos RSIZE_MAX_STR <|
+    if src = 0 then do handleError cfg dest dmax ESNULLP; pure (0, ESNULLP)
+    else stpBody cfg false dest dmax src 0 srcbos
+
+def stpncpy_s (cfg : Cfg) (dest dmax src slen : Nat) (destbos srcbos : Bos) : Prog (Nat × Nat) :=
+  if dest = 0 then do handlerS ESNULLP; pure (0, ESNULLP)
+  else if dmax = 0 then do handlerS ESZEROL; pure (0, ESZEROL)
+  else chkDmaxClearG (fun c => (0, c)) cfg dest dmax destbos RSIZE_MAX_STR <|
+    if src = 0 then do handleError cfg dest dmax ESNULLP; pure (0, ESNULLP)
+    else if slen > RSIZE_MAX_STR then do
+      let l ← strnlen_s dest dmax none
+      handleError cfg dest l ESLEMAX
+      pure (0, ESLEMAX)
+    else match srcbos with
+      | some sb =>
+        if slen > sb then do
+          let c ← handleStrBosOverflow cfg dest (destbos.getD (2^64 - 1))
+          pure (0, c)
+        else stpBody cfg true dest dmax src slen srcbos
+      | none => stpBody cfg true dest dmax src slen srcbos
 
 end SafeC
